@@ -4,7 +4,7 @@ import vlib
 
 def run_gen(ctx, binp, gen, tier_sfx, keyfn, sample_name):
     recs, g, d, _ = ctx.gen("Pipeline.tla", "GEN_Pipeline%s_%s.cfg" % (gen, tier_sfx))
-    out = ctx.run_vh(binp, ["pipe"], cases=recs, timeout=3000)
+    out = ctx.run_vh(binp, ["pipe"], cases=recs, timeout=7200)
     out, crashed = ctx.nocrash(out, "%s:crash" % ctx.pid)
     if not crashed and len(out) != len(recs):
         raise vlib.Infra("pipe(%s): %d results for %d cases" % (gen, len(out), len(recs)))
